@@ -514,6 +514,58 @@ def prop_c17dhcurves(da_name, db_name, ka, kb):
     return "ok"
 
 
+@op("prop.c17nearcurve")
+def prop_c17nearcurve(name, seed):
+    """a curve that differs from a supported one in ONE parameter only (b + 1; a + 1; another prime) is another curve: its
+    field objects compare unequal, its points are not added to points of the supported curve, and a public key on it is
+    refused by a key agreement on the supported curve (InvalidCurveError), whichever way it gets in"""
+    import random as _r
+    rng = _r.Random(pint(seed))
+    fp, gx, gy, n, h, cv = domain(name)
+    p, a, b = int(fp.p()), int(fp.a()), int(fp.b())
+    sk = keys.SigningKey.from_secret_exponent(1 + rng.randrange(n - 1), cv)
+    for what, (p2, a2, b2) in (("b + 1", (p, a, (b + 1) % p)), ("a + 1", (p, (a + 1) % p, b)), ("b + p (same curve)", (p, a, b + p))):
+        fp2 = CurveFp(p2, a2, b2)
+        same = what.endswith("(same curve)")
+        if (fp == fp2) != same or (fp != fp2) == same:
+            return f"FAIL the field objects of {name} and of the curve with {what} compare {'unequal' if same else 'equal'}"
+        if same:
+            continue
+        c2 = dict(p=p2, a=a2, b=b2)
+        x = rng.randrange(2, 1000)
+        while True:
+            y = refec.sqrt_mod((x ** 3 + a2 * x + b2) % p2, p2)
+            if y:
+                break
+            x += 1
+        if refec.on_curve(dict(p=p, a=a, b=b), (x, y)):
+            continue
+        g2 = PointJacobi(fp2, x, y, 1, n)
+        other = curves.Curve("near-" + name, fp2, g2, (1, 2, 3, 4))
+        if other == cv or not (other != cv):
+            return f"FAIL the Curve object with {what} compares equal to {name}"
+        try:
+            s = PointJacobi(fp, gx, gy, 1, n) + g2
+            return f"FAIL a point of {name} and a point of the curve with {what} are added (result {s.x() if s != INFINITY else 'inf'})"
+        except ValueError:
+            pass
+        vk2 = keys.VerifyingKey.from_public_point(g2, other, validate_point=False)
+        for route, how in (("load_received_public_key", lambda e: e.load_received_public_key(vk2)),
+                           ("public_key assigned", lambda e: setattr(e, "public_key", vk2)),
+                           ("load_received_public_key_bytes of its own encoding", lambda e: e.load_received_public_key_bytes(vk2.to_string("uncompressed")))):
+            try:
+                e = ecdh.ECDH(cv, sk)
+                how(e)
+                sec = e.generate_sharedsecret_bytes()
+            except (ecdh.InvalidCurveError, errors.MalformedPointError):
+                continue
+            except Exception as ex:
+                return f"FAIL {route} of a key on the curve with {what}: {type(ex).__name__} instead of InvalidCurveError"
+            return (f"FAIL {route}: a public key on the curve with {what} (not a point of {name}) takes part in a key agreement on "
+                    f"{name}, secret {sec.hex()[:24]}...")
+    return "ok"
+
+
 @op("prop.c17invalid")
 def prop_c17invalid(d, x, y, why):
     """invalid points are rejected when loaded as public key and when used for key agreement"""
